@@ -31,11 +31,13 @@ const char *mc_rule = "history BFS with canonical-state dedupe: all histories (t
 // ---------------------------------------------------------------- ids, answers
 static uint64_t djb2x(const char *s) { uint64_t h = 5381; while (*s) h = (h * 33) ^ (uint64_t) (int64_t) *s++; return h; }   // reference for mpt_hash_djb2
 static const uint64_t ID_GO = djb2x("go"), ID_STOP = djb2x("stop"), ID_XX = djb2x("xx");
+// command names that are never registered (several lengths); the letter "unknown command" runs all of them
+static const char *unknown_txt[] = { "x", "xx", "abc", "restart" };
 static std::string idname(uint64_t id)
 {
 	if (id == ID_GO) return "#go";
 	if (id == ID_STOP) return "#stop";
-	if (id == ID_XX) return "#xx";
+	for (const char *t : unknown_txt) if (id == djb2x(t)) return std::string("#") + t;
 	return std::to_string((unsigned long long) id);
 }
 enum Ans { A0, ADEF, ADEFFAIL, ATERM, AERR, NANS };
@@ -78,13 +80,14 @@ static void build_letters(int alpha, std::vector<Letter> &L)
 	L.push_back(Letter{EMSG_EMPTY, 0, 0, 0, "emit(empty message)", "emit(message)"});
 	for (int a = 0; a < NANS; ++a) L.push_back(Letter{ENULL, 0, a, 0, std::string("emit(NULL)") + ansname[a], "emit(NULL)"});
 	std::vector<uint64_t> T; T.push_back(ID_GO); if (th) T.push_back(ID_STOP); T.push_back(ID_XX);
-	static const char *shn[] = { "\"%s\\0\"", "sep=' ' \"%s now\"", "split \"%s\\0\"" };
-	for (uint64_t id : T) for (int sh = 0; sh < (th ? 3 : 2); ++sh) for (int a = 0; a < NANS; ++a) {
-		const char *txt = id == ID_GO ? "go" : (id == ID_STOP ? "stop" : "xx");
-		L.push_back(Letter{HASH, id, a, sh, "dispatch_hash(" + fmt(shn[sh], txt) + ")" + ansname[a], "dispatch_hash"});
+	// every hash letter runs ALL fragmentations of header + text + tail into <= 3 segments (inner loop, see apply_disp)
+	for (uint64_t id : T) for (int sh = 0; sh < 2; ++sh) for (int a = 0; a < NANS; ++a) {
+		std::string txt = id == ID_GO ? "go" : (id == ID_STOP ? "stop" : "<x|xx|abc|restart>");
+		L.push_back(Letter{HASH, id, a, sh, "dispatch_hash(" + (sh ? "sep=' ' \"" + txt + " now\"" : "\"" + txt + "\\0\"") + ", all fragmentations)" + ansname[a], "dispatch_hash"});
 	}
 	L.push_back(Letter{HASH_BAD, 0, 0, 0, "dispatch_hash(no message)", "dispatch_hash"});
 	L.push_back(Letter{HASH_BAD, 0, 0, 1, "dispatch_hash(1-byte message)", "dispatch_hash"});
+	L.push_back(Letter{HASH_BAD, 0, 0, 2, "dispatch_hash(header without text)", "dispatch_hash"});
 	L.push_back(Letter{SETERR, 1, 0, 0, "dispatch::set_error(h)", "set_error"});
 	L.push_back(Letter{SETERR, 0, 0, 0, "dispatch::set_error(NULL)", "set_error"});
 	for (uint64_t id : R) L.push_back(Letter{SETDEF, id, 0, 0, "dispatch::set_default(" + idname(id) + ")", "set_default"});
@@ -141,9 +144,10 @@ struct Sys {
 	const Letter *cur;
 	char cls[112];
 	uint64_t pre_ids[16]; int pre_n; uint64_t pre_def; int pre_fb; const char *pre_tcls;
+	const char *frag_txt; size_t frag_c1, frag_c2, frag_len; int frag_clen;   // running fragmentation of a hash letter
 
 	Sys(Run &run, uint64_t init) : r(run), alpha((int) (init & 3)), sub((init & 3) >= 2), t0(run.transitions), dead(false), d(0), def(0), fb(-2), answer(A0),
-	                               had_free(false), had_growth(false), counted(false), cur(0), pre_n(0), pre_def(0), pre_fb(0), pre_tcls("")
+	                               had_free(false), had_growth(false), counted(false), cur(0), pre_n(0), pre_def(0), pre_fb(0), pre_tcls(""), frag_txt(0), frag_c1(0), frag_c2(0), frag_len(0), frag_clen(0)
 	{
 		static bool once = false;
 		if (!once) { once = true; mpt::mpt_log_default_skip(1); }
@@ -206,7 +210,7 @@ struct Sys {
 	}
 	void begin(const Letter &l)
 	{
-		cur = &l; obs.clear(); exp.clear(); cls[0] = 0;
+		cur = &l; obs.clear(); exp.clear(); cls[0] = 0; frag_txt = 0;
 		pre_n = 0; for (auto &kv : reg) if (pre_n < 16) pre_ids[pre_n++] = kv.first;
 		pre_def = def; pre_fb = fb; pre_tcls = tclass();
 		asan_error();
@@ -217,7 +221,9 @@ struct Sys {
 		for (int i = 0; i < pre_n; ++i) s += (i ? " " : "") + idname(pre_ids[i]);
 		s += "}";
 		if (!sub) s += " default=" + idname(pre_def) + " fallback=" + (pre_fb == -2 ? "built-in" : (pre_fb == -1 ? "none" : "handler"));
-		return s + ", " + pre_tcls;
+		s += std::string(", ") + pre_tcls;
+		if (frag_txt) s += fmt(" [text \"%s\", message bytes 0..%zu cut into %d segment(s): [0,%zu) [%zu,%zu) [%zu,%zu)]", frag_txt, frag_len, frag_clen + 1, frag_c1, frag_c1, frag_c2, frag_c2, frag_len);
+		return s;
 	}
 	bool fail(const char *group, const std::string &detail)
 	{
@@ -493,34 +499,42 @@ bool Sys::apply_disp(const Letter &l)
 		if (want_neg) { if (ret >= 0) return fail("return-value", fmt("returned %d, an error code is documented", ret)); }
 		else if (ret != want_ret) return fail((ret ^ want_ret) == F_DEFAULT ? "default-bookkeeping" : "return-value", fmt("returned %d, handler answer and documented default bookkeeping give %d", ret, want_ret));
 		return lookup_ok(); }
-	case HASH: case HASH_BAD: {
-		answer = l.ans;
+	case HASH_BAD: {
 		mpt::event ev;
 		ev.reply = &ctx;
 		ev.id = 0x7777;
 		mpt::message msg;
-		uint8_t data[16]; struct iovec io;
-		int target = -3;
-		int want_ret; uint64_t want_id;
-		if (l.k == HASH_BAD) {
-			setcls(l.shape ? "short-message" : "no-message");
-			data[0] = mpt::msgtype::Command;
-			if (l.shape) { msg.base = data; msg.used = 1; ev.msg = &msg; }
-			want_ret = F_DEFAULT | F_FAIL; want_id = 0;
-		} else {
-			const char *txt = l.id == ID_GO ? "go" : (l.id == ID_STOP ? "stop" : "xx");
+		uint8_t *data = (uint8_t *) malloc(l.shape == 2 ? 2 : 1);   // exactly sized
+		data[0] = mpt::msgtype::Command; if (l.shape == 2) data[1] = 0;
+		setcls(l.shape == 0 ? "no-message" : (l.shape == 1 ? "short-message" : "no-text"));
+		if (l.shape) { msg.base = data; msg.used = l.shape; ev.msg = &msg; }
+		int ret = LIB(mpt::mpt_dispatch_hash(d, &ev));
+		free(data);
+		if (!settle()) return false;
+		if (ret != (F_DEFAULT | F_FAIL)) return fail("return-value", fmt("returned %d, expected %d", ret, F_DEFAULT | F_FAIL));
+		if (ev.id != 0) return fail("return-value", "event id after the call is " + idname(ev.id) + ", expected 0");
+		return lookup_ok(); }
+	case HASH: {
+		answer = l.ans;
+		// the fragmentation does not change the dispatcher state: the final op of a history runs every fragmentation,
+		// prefix replays only the unfragmented message
+		bool all = final_op();
+		bool delivered = false, crossed = false;
+		uint64_t nfrag = 0;
+		size_t ntxt = l.id == ID_XX ? sizeof unknown_txt / sizeof *unknown_txt : 1;
+		for (size_t ti = 0; ti < ntxt; ++ti) {
+			const char *txt = l.id == ID_GO ? "go" : (l.id == ID_STOP ? "stop" : unknown_txt[ti]);
 			size_t n = strlen(txt);
-			setcls(target_class(l.id));
-			if (djb2x(txt) != mpt::mpt_hash(txt, (int) n)) return fail("hash-function", "mpt_hash differs from the documented djb2-xor variant");
-			data[0] = mpt::msgtype::Command; data[1] = l.shape == 1 ? ' ' : 0;
-			memcpy(data + 2, txt, n);
-			if (l.shape == 0) { data[2 + n] = 0; msg.base = data; msg.used = 3 + n; }
-			else if (l.shape == 1) { memcpy(data + 2 + n, " now", 4); msg.base = data; msg.used = 6 + n; }
-			else { data[2 + n] = 0; msg.base = data; msg.used = 3; io.iov_base = data + 3; io.iov_len = n; msg.cont = &io; msg.clen = 1; }
-			ev.msg = &msg;
-			uint64_t id_after = l.id;
-			if (reg.count(l.id)) {
-				target = reg[l.id];
+			uint64_t id = djb2x(txt);
+			setcls(target_class(id));
+			if (id != mpt::mpt_hash(txt, (int) n)) return fail("hash-function", "mpt_hash differs from the documented djb2-xor variant");
+			uint8_t S[32]; size_t L;
+			S[0] = mpt::msgtype::Command; S[1] = l.shape ? ' ' : 0;
+			memcpy(S + 2, txt, n);
+			if (l.shape) { memcpy(S + 2 + n, " now", 4); L = 6 + n; } else { S[2 + n] = 0; L = 3 + n; }
+			int target = -3, want_ret; uint64_t want_id, id_after = id;
+			if (reg.count(id)) {
+				target = reg[id];
 				int raw = model_answer(target, id_after, true);
 				if (raw < 0) { want_ret = F_DEFAULT | F_FAIL; want_id = 0; }   // MPT_event_fail
 				else { want_ret = raw; want_id = id_after; }
@@ -528,18 +542,45 @@ bool Sys::apply_disp(const Letter &l)
 				target = fb;
 				want_ret = model_answer(target, id_after, true); want_id = id_after;
 			} else { want_ret = F_DEFAULT | F_FAIL; want_id = 0; }
-			if (target >= 0) exp.push_back(Exp{target, false});
-		}
-		int ret = LIB(mpt::mpt_dispatch_hash(d, &ev));
-		if (!settle()) return false;
-		for (const Obs &o : obs) if (!o.fin && (o.evid != l.id || !o.hasmsg)) return fail("wrong-event-id", "the handler saw event id " + idname(o.evid) + ", expected " + idname(l.id));
-		if (ret != want_ret) return fail("return-value", fmt("returned %d, expected %d", ret, want_ret));
-		if (ev.id != want_id) return fail("return-value", "event id after the call is " + idname(ev.id) + ", expected " + idname(want_id));
-		if (l.k == HASH) {
-			if (target >= 0 && toks[target].kind == 0) { cnt("path:hash delivered"); if (l.shape == 2) cnt("path:hash delivered (text split over fragments)"); }
+			for (size_t c1 = all ? 0 : L; c1 <= L; ++c1) for (size_t c2 = c1; c2 <= L; ++c2) for (int clen = 2; clen >= 0; --clen) {
+				if ((clen < 2 && c2 != L) || (clen < 1 && c1 != L)) continue;   // fewer segments only when the dropped ones are empty
+				if (!all && clen) continue;
+				// text bytes are S[2, 2+n): which segments hold them?
+				size_t tb = 2, te = 2 + n;
+				int sb = tb < c1 ? 0 : (tb < c2 ? 1 : 2), se = te - 1 < c1 ? 0 : (te - 1 < c2 ? 1 : 2);
+				setcls(target_class(id), clen == 0 ? "one-segment" : (sb != se ? "text-crosses-segments" : (c1 < 2 && c1 ? "header-split" : "text-in-one-segment")));
+				frag_txt = txt; frag_c1 = c1; frag_c2 = c2; frag_len = L; frag_clen = clen;
+				obs.clear(); exp.clear();
+				if (target >= 0) exp.push_back(Exp{target, false});
+				// every segment and the iovec array are exactly sized heap blocks: over-reads hit ASan redzones
+				uint8_t *s0 = (uint8_t *) malloc(c1), *s1 = (uint8_t *) malloc(c2 - c1), *s2 = (uint8_t *) malloc(L - c2);
+				struct iovec *io = (struct iovec *) malloc(clen * sizeof *io);
+				if (c1) memcpy(s0, S, c1);
+				if (c2 - c1) memcpy(s1, S + c1, c2 - c1);
+				if (L - c2) memcpy(s2, S + c2, L - c2);
+				if (clen > 0) { io[0].iov_base = s1; io[0].iov_len = c2 - c1; }
+				if (clen > 1) { io[1].iov_base = s2; io[1].iov_len = L - c2; }
+				mpt::message msg;
+				msg.base = s0; msg.used = c1; msg.cont = io; msg.clen = clen;
+				mpt::event ev;
+				ev.reply = &ctx; ev.id = 0x7777; ev.msg = &msg;
+				int ret = LIB(mpt::mpt_dispatch_hash(d, &ev));
+				uint64_t evid = ev.id;
+				free(s0); free(s1); free(s2); free(io);
+				++nfrag;
+				if (!settle()) return false;
+				for (const Obs &o : obs) if (!o.fin && (o.evid != id || !o.hasmsg)) return fail("wrong-event-id", "the handler saw event id " + idname(o.evid) + ", expected " + idname(id));
+				if (ret != want_ret) return fail("return-value", fmt("returned %d, expected %d", ret, want_ret));
+				if (evid != want_id) return fail("return-value", "event id after the call is " + idname(evid) + ", expected " + idname(want_id));
+				if (target >= 0 && toks[target].kind == 0) { delivered = true; if (sb != se) crossed = true; }
+			}
+			frag_txt = 0;
+			if (target >= 0 && toks[target].kind == 0) cnt("path:hash delivered");
 			else if (target != -3) cnt("path:hash to fallback");
 			else cnt("path:hash without fallback");
 		}
+		if (delivered && crossed) cnt("path:hash delivered (text split over fragments)");
+		if (final_op()) r.count("hash-dispatch calls (all fragmentations)", nfrag);
 		return lookup_ok(); }
 	case SETERR: {
 		setcls(fb == -2 ? "builtin-fallback" : (fb == -1 ? "no-fallback" : "fallback-handler"));
@@ -701,7 +742,8 @@ static void requirements(Run &r, const std::string &job)
 		const char *req[] = { "path:registered", "path:dispatch_set refuses used id", "path:end-of-life on removal", "path:end-of-life on replacement", "path:end-of-life on fini",
 			"path:end-of-life on teardown", "path:end-of-life of replaced fallback", "path:id delivered to registered handler", "path:message delivered to registered handler",
 			"path:default event delivered", "path:delivered to fallback handler", "path:delivered to built-in fallback", "path:no handler and no fallback",
-			"path:handler error propagated", "path:default added", "path:default removed", "path:hash delivered", "path:hash to fallback", "path:hash without fallback" };
+			"path:handler error propagated", "path:default added", "path:default removed", "path:hash delivered", "path:hash delivered (text split over fragments)",
+			"path:hash to fallback", "path:hash without fallback" };
 		for (const char *k : req) r.require(k);
 	}
 	if (job == "closure") {
